@@ -232,7 +232,10 @@ StartC(a, cf, cs) ==
                \* a volume restarted from an electorate in which nobody held an acknowledged
                \* write has lost it (the election guarantee is ElectedFreshest)
                /\ acked' = acked \cap rlog[a]
-               /\ UNCHANGED <<reg, maxRev, signalled, pcAdd, monNote, rrev, rreb, rsnaps, rlog,
+               \* (a replica process clears a left-over rebuilding flag before it registers / asks
+               \* to be added: sync.Task checkAndResetFailedRebuild)
+               /\ rreb' = [rreb EXCEPT ![a] = FALSE]
+               /\ UNCHANGED <<reg, maxRev, signalled, pcAdd, monNote, rrev, rsnaps, rlog,
                               rsnapAt, nextW, calls>>
 
 Start(a, cf) == StartC(a, cf, "")
@@ -340,7 +343,8 @@ AddCommit(a, cf, tk, n, S) ==
                            /\ monWait' = [x \in Addr |-> IF x = a THEN TRUE
                                                          ELSE IF x \in D THEN FALSE ELSE monWait[x]]
                            /\ Settle(cm, sn, {})
-                           /\ UNCHANGED <<rrev, rreb, rlog, rsnapAt, acked, nextW, calls>>
+                           /\ rreb' = [rreb EXCEPT ![a] = FALSE]
+                           /\ UNCHANGED <<rrev, rlog, rsnapAt, acked, nextW, calls>>
 
 \* the file sync of the rebuild (environment): the WO replica receives the
 \* source's snapshots and everything applied up to the add-time snapshot
